@@ -118,6 +118,11 @@ ada_really_inline uint64_t
 parse_ipv4_decimal_trusted(const char* p, const char* pend) noexcept {
   uint32_t ipv4 = 0;
   for (int i = 0; i < 4; ++i) {
+    // The SIMD pre-check only guarantees digits, dots and the dot count: every
+    // part must still start with a digit (rejects "1..2.3", ".1.2.3").
+    if (static_cast<unsigned char>(*p - '0') > 9) [[unlikely]] {
+      return ipv4_fast_fail;
+    }
     uint32_t val = static_cast<uint32_t>(*p - '0');
     ++p;
     if (p < pend && static_cast<unsigned char>(*p - '0') <= 9) {
@@ -136,8 +141,15 @@ parse_ipv4_decimal_trusted(const char* p, const char* pend) noexcept {
     }
     ipv4 = (ipv4 << 8) | val;
     if (i < 3) {
-      ++p;  // trusted '.'
+      // At most three digits per part: the next byte must be the separator.
+      if (*p != '.') [[unlikely]] {
+        return ipv4_fast_fail;
+      }
+      ++p;
     }
+  }
+  if (p != pend) [[unlikely]] {
+    return ipv4_fast_fail;  // more than three digits in the last part
   }
   return ipv4;  // trailing-dot already accounted for by caller via pend
 }
